@@ -54,6 +54,7 @@ pub fn data_bytes(class: &str) -> Option<Binary> {
         }
         "empty_env" => Some(Binary::from(Vec::<u8>::new())),
         "bad_env" => Some(Binary::from(vec![0xff, 0xff, 0xff])),
+        "bare_json" => Some(Binary::from(good_json)),
         "bad_json" => Some(Binary::from(proto_bytes_field(0x0a, b"not json"))),
         _ => None,
     }
@@ -268,6 +269,16 @@ impl InstLike for Option<sylvia::cw_utils::MsgInstantiateContractResponse> {
             Some(x) => x.proj(),
             None => json!({"t":"z","v":"null"}),
         }
+    }
+}
+
+/// Everything an `always` method can see in the result it is handed: number of events, number of message responses, the data.
+#[allow(deprecated)]
+pub fn result_full(r: &SubMsgResult) -> Value {
+    match r {
+        SubMsgResult::Ok(resp) => json!({"events": resp.events.iter().map(|e| e.ty.clone()).collect::<Vec<_>>(), "msgresp": resp.msg_responses.len(),
+                                         "data": resp.data.as_ref().map(|d| d.to_base64()).unwrap_or_default(), "has_data": resp.data.is_some()}),
+        SubMsgResult::Err(_) => json!({"events": [], "msgresp": 0, "data": "", "has_data": false}),
     }
 }
 
